@@ -125,12 +125,9 @@ func (e *Engine) mergeContent(g smt.Term, o *Obj, a, b interface{}) interface{} 
 		return out
 	case KChan:
 		x, y := a.(*ChanContent), b.(*ChanContent)
-		if len(x.Buf) != len(y.Buf) {
-			panic(e.unsupported("merge of channels with different concrete fill"))
-		}
-		nc := &ChanContent{Cap: x.Cap, Closed: c.Ite(g, x.Closed, y.Closed)}
-		for i := range x.Buf {
-			nc.Buf = append(nc.Buf, e.Merge(g, x.Buf[i], y.Buf[i]))
+		nc := &ChanContent{Cap: x.Cap, Closed: c.Ite(g, x.Closed, y.Closed), Count: c.Ite(g, x.Count, y.Count)}
+		for i := range x.Slots {
+			nc.Slots = append(nc.Slots, e.Merge(g, x.Slots[i], y.Slots[i]))
 		}
 		return nc
 	}
